@@ -101,6 +101,7 @@ type clientWorld struct {
 	respond       func(w *clientWorld, req *kmip.RequestMessage, connIdx int) *kmip.ResponseMessage // override (C12/C13)
 	rawRespond    func(w *clientWorld, req *kmip.RequestMessage, connIdx int) []byte
 	tokenOwner    map[string]*callRec
+	loose         bool
 }
 
 func newClientWorld(x *X, sc *ClientSc) *clientWorld {
@@ -153,7 +154,16 @@ func (w *clientWorld) peerLoop(c *simnet.Conn, connIdx int) {
 	st := ttlv.NewStream(c, 0)
 	for {
 		var req kmip.RequestMessage
-		if err := st.Recv(&req); err != nil {
+		if w.loose {
+			// only the skeleton of the request matters (version, operations, item ids): decode
+			// generically so that the peer never depends on the request payload being decodable
+			var v ttlv.Value
+			if err := st.Recv(&v); err != nil {
+				_ = c.Close()
+				return
+			}
+			req = skeletonRequest(v)
+		} else if err := st.Recv(&req); err != nil {
 			_ = c.Close()
 			return
 		}
@@ -505,3 +515,48 @@ func uniqStrings(in []string) []string {
 }
 
 var _ = errors.Is
+
+// skeletonRequest extracts version, operations and batch item ids from a generically decoded request.
+func skeletonRequest(v ttlv.Value) kmip.RequestMessage {
+	var req kmip.RequestMessage
+	top, _ := v.Value.(ttlv.Struct)
+	for _, f := range top {
+		switch f.Tag {
+		case kmip.TagRequestHeader:
+			hs, _ := f.Value.(ttlv.Struct)
+			for _, h := range hs {
+				if h.Tag == kmip.TagProtocolVersion {
+					vs, _ := h.Value.(ttlv.Struct)
+					for _, x := range vs {
+						n, _ := x.Value.(int32)
+						if x.Tag == kmip.TagProtocolVersionMajor {
+							req.Header.ProtocolVersion.ProtocolVersionMajor = n
+						}
+						if x.Tag == kmip.TagProtocolVersionMinor {
+							req.Header.ProtocolVersion.ProtocolVersionMinor = n
+						}
+					}
+				}
+				if h.Tag == kmip.TagBatchCount {
+					n, _ := h.Value.(int32)
+					req.Header.BatchCount = n
+				}
+			}
+		case kmip.TagBatchItem:
+			var bi kmip.RequestBatchItem
+			is, _ := f.Value.(ttlv.Struct)
+			for _, x := range is {
+				switch x.Tag {
+				case kmip.TagOperation:
+					e, _ := x.Value.(ttlv.Enum)
+					bi.Operation = kmip.Operation(e)
+				case kmip.TagUniqueBatchItemID:
+					b, _ := x.Value.([]byte)
+					bi.UniqueBatchItemID = b
+				}
+			}
+			req.BatchItem = append(req.BatchItem, bi)
+		}
+	}
+	return req
+}
